@@ -62,3 +62,37 @@ def fd_snapshot():
         except OSError:
             pass
     return out
+
+
+class RawBytesStream(io.RawIOBase):
+    """An unbuffered, seekable raw stream over bytes (what open(path, 'rb', buffering=0) or a socket-like source hands out):
+    the caller owns it, it must still be open after npTDMS is done with it."""
+
+    def __init__(self, data):
+        io.RawIOBase.__init__(self)
+        self._data = bytes(data)
+        self._pos = 0
+
+    def readable(self):
+        return True
+
+    def seekable(self):
+        return True
+
+    def readinto(self, b):
+        n = min(len(b), max(0, len(self._data) - self._pos))
+        b[:n] = self._data[self._pos:self._pos + n]
+        self._pos += n
+        return n
+
+    def seek(self, offset, whence=0):
+        if whence == 0:
+            self._pos = offset
+        elif whence == 1:
+            self._pos += offset
+        else:
+            self._pos = len(self._data) + offset
+        return self._pos
+
+    def tell(self):
+        return self._pos
